@@ -192,6 +192,7 @@ pub enum BlockRes {
 
 /// `hsb` is the (non-zero) Block Header Size byte, `rem` the bytes that follow it.  `check` is the
 /// stream's check type.  `used` counts bytes of `rem`; `unpadded` is the Unpadded Size (size byte included).
+#[verifier::opaque]
 pub open spec fn sp_xz_block(hsb: u8, rem: Seq<u8>, check: u8) -> BlockRes {
     if hsb == 0 { BlockRes::Bad }
     else {
@@ -226,6 +227,84 @@ pub open spec fn sp_xz_block(hsb: u8, rem: Seq<u8>, check: u8) -> BlockRes {
                     }
                 }
             }
+        }
+    }
+}
+
+// ---- 2 Stream -------------------------------------------------------------------------------------------
+pub enum BlocksRes { Bad, Unspec, Good { used: nat, out: Seq<u8>, recs: Seq<RecS> } }
+
+/// the Blocks up to (not including) the Index Indicator byte 0x00.  `recs` / `out` accumulate.
+pub open spec fn sp_xz_blocks(s: Seq<u8>, check: u8, recs: Seq<RecS>, out: Seq<u8>, used0: nat) -> BlocksRes
+    decreases s.len()
+{
+    if s.len() == 0 { BlocksRes::Bad }
+    else if s[0] == 0 { BlocksRes::Good { used: used0, out: out, recs: recs } }
+    else {
+        match sp_xz_block(s[0], s.skip(1), check) {
+            BlockRes::Bad => BlocksRes::Bad,
+            BlockRes::Unspec => BlocksRes::Unspec,
+            BlockRes::Good { used, out: o, unpadded } =>
+                if used + 1 > s.len() { BlocksRes::Bad } else {
+                sp_xz_blocks(s.skip(1 + used as int), check, recs.push(RecS { unpadded: unpadded, unpacked: o.len() }), out + o, used0 + 1 + used) },
+        }
+    }
+}
+
+pub enum XzRes { Bad, Unspec, Good { out: Seq<u8> } }
+
+/// 2.1.1 Stream Header (12 bytes)
+pub open spec fn sp_xz_header_ok(f: Seq<u8>) -> bool {
+    f.len() >= 12 && f.take(6) == xz_magic() && f[6] == 0 && sp_check_known(f[7])
+        && le32(f.skip(8)) == crc32_of(f.subrange(6, 8))
+}
+
+/// 2.1.2 Stream Footer (12 bytes) starting at `t`: CRC32, Backward Size, Stream Flags, magic; then end of file.
+pub open spec fn sp_xz_footer_ok(t: Seq<u8>, index_size: nat, check: u8) -> bool {
+    &&& t.len() == 12
+    &&& index_size == (le32(t.skip(4)) as nat + 1) * 4
+    &&& t[8] == 0 && t[9] == check
+    &&& le32(t) == crc32_of(t.subrange(4, 10))
+    &&& t.subrange(10, 12) == xz_footer_magic()
+}
+
+/// a whole single-stream .xz file
+pub open spec fn sp_xz(f: Seq<u8>) -> XzRes {
+    if !sp_xz_header_ok(f) { XzRes::Bad }
+    else {
+        let check = f[7];
+        match sp_xz_blocks(f.skip(12), check, Seq::<RecS>::empty(), Seq::<u8>::empty(), 0) {
+            BlocksRes::Bad => XzRes::Bad,
+            BlocksRes::Unspec => XzRes::Unspec,
+            BlocksRes::Good { used, out, recs } => {
+                let ip = 12 + used + 1;                     // first byte after the Index Indicator
+                if ip > f.len() { XzRes::Bad } else {
+                match sp_xz_index(f.skip(ip as int), recs, 1) {
+                    None => XzRes::Bad,
+                    Some(ki) => if ip + ki > f.len() { XzRes::Bad }
+                        else if sp_xz_footer_ok(f.skip((ip + ki) as int), 1 + ki, check) { XzRes::Good { out: out } } else { XzRes::Bad },
+                }}
+            }
+        }
+    }
+}
+
+pub proof fn lemma_blocks_out_prefix(s: Seq<u8>, check: u8, recs: Seq<RecS>, out: Seq<u8>, used0: nat)
+    ensures match sp_xz_blocks(s, check, recs, out, used0) {
+        BlocksRes::Good { used, out: o2, recs: r2 } => out.is_prefix_of(o2) && used0 <= used && used - used0 < s.len(),
+        _ => true,
+    },
+    decreases s.len()
+{
+    if s.len() > 0 && s[0] != 0 {
+        match sp_xz_block(s[0], s.skip(1), check) {
+            BlockRes::Good { used, out: o, unpadded } => {
+                if used + 1 <= s.len() {
+                    lemma_blocks_out_prefix(s.skip(1 + used as int), check, recs.push(RecS { unpadded: unpadded, unpacked: o.len() }), out + o, used0 + 1 + used);
+                    assert(out.is_prefix_of(out + o));
+                }
+            },
+            _ => {},
         }
     }
 }
